@@ -1,4 +1,5 @@
 import JsightVerif.Props.C05
+import JsightVerif.Proofs.BuildRegs
 /-
   C03 — single known faults are rejected, at the fault (registry level).
   A second declaration of a name is refused by the Has-before-Set discipline at exactly that
@@ -38,5 +39,37 @@ theorem first_duplicate_is_reported {α} (pre : List (Name × α)) (k : Name) (v
 
 example : (match addAll (OMap.empty : OMap Nat) [("@a", 1), ("@b", 2), ("@a", 3), ("@b", 4)] with
     | .error e => e == .duplicate "@a" | .ok _ => false) = true := by decide
+
+/-! ### the model that is compared with the real builder (Model/Build.lean, op `cat`) -/
+
+section Tied
+open JsightVerif.Model JsightVerif.Model.Build JsightVerif.Gen
+
+/-- **C03 (duplicates, tied model)**: a project in which two SERVER directives, two TYPE directives or
+    two interactions carry the same name is never accepted: in every accepted project these names are
+    pairwise distinct (contrapositive: the second declaration makes the build fail). -/
+theorem C03_accepted_names_distinct (roots : List DT) (rootFile : Bytes) (banned : List Kind)
+    (content : Bytes → Bytes) (b : Built) (h : build roots rootFile banned content = .ok b) :
+    (serverNames b.cat).Nodup ∧ (typeNames b.cat).Nodup ∧ (ids b.cat).Nodup := by
+  obtain ⟨_, _, _, _, tags, enums, s, _, _, _, hadd, hc⟩ := build_stages roots rootFile banned content b h
+  rw [hc]
+  exact ⟨(addList_servers content b.expanded _ s hadd).2 (by simp [serverNames]),
+         (addList_types content b.expanded _ s hadd).2 (by simp [typeNames]),
+         addList_nodup content b.expanded [] b.expanded [] _ s (by simp) hadd⟩
+
+/-- and the declared names are what the catalog holds, so two SERVER (TYPE) directives with one name
+    in the expanded document are enough to make the model refuse it -/
+theorem C03_duplicate_server_refused (roots : List DT) (rootFile : Bytes) (banned : List Kind)
+    (content : Bytes → Bytes) (b : Built) (h : build roots rootFile banned content = .ok b) :
+    (collectList (fun d _ => newServers d) b.expanded []).Nodup ∧
+    (collectList (fun d _ => newTypes d) b.expanded []).Nodup := by
+  obtain ⟨_, _, _, _, tags, enums, s, _, _, _, hadd, hc⟩ := build_stages roots rootFile banned content b h
+  have hs := addList_servers content b.expanded _ s hadd
+  have ht := addList_types content b.expanded _ s hadd
+  constructor
+  · have := hs.2 (by simp [serverNames]); rw [hs.1] at this; simpa [serverNames] using this
+  · have := ht.2 (by simp [typeNames]); rw [ht.1] at this; simpa [typeNames] using this
+
+end Tied
 
 end JsightVerif.Props.C03
